@@ -23,6 +23,12 @@ type Instance struct {
 	Never   bool      // never becomes running
 	Dead    bool      // terminated
 	ASG     string    // "" = not attached to a group
+	// Terminating: termination accepted, but the group still lists the instance (lifecycle state
+	// Terminating / Terminating:Wait) until the environment lets the group settle
+	Terminating bool
+	// GoneState: what DescribeInstanceStatus reports for an instance that never becomes running
+	// ("" = pending; "stopped", "stopping", "shutting-down", "terminated")
+	GoneState string
 }
 
 // Running reports whether the instance is in state running at the current virtual time.
@@ -39,6 +45,7 @@ type ASG struct {
 	Instances []string // ids, in attach order
 	VPCZones  string
 	Tags      map[string]string
+	Status    string // "Delete in progress" while the group is being deleted ("" otherwise)
 }
 
 // FleetPlan controls how the next CreateFleet calls answer.
@@ -53,6 +60,7 @@ type FleetPlan struct {
 	StaggerMod int           // >1: instance i becomes running (i % StaggerMod) seconds later than ReadyAfter
 	ErrCode    string        // error code returned with WithErrors ("" = InsufficientInstanceCapacity)
 	LateTail   int           // the last LateTail instances of the answer become running 2 s later than the others
+	GoneState  string        // state reported for the never-ready instances ("" = pending)
 }
 
 // FleetErrorCodes are error codes EC2 reports in CreateFleet answers (alongside instances when
@@ -79,6 +87,9 @@ type FleetReq struct {
 
 // AWS is the simulated cloud: auto scaling groups plus EC2 instances.
 type AWS struct {
+	// Linger: an instance whose termination was accepted stays listed by its group as Terminating
+	// until Settle is called (real groups list such instances for seconds to hours)
+	Linger    bool
 	J         *Journal
 	ASGs      map[string]*ASG
 	Instances map[string]*Instance
@@ -171,13 +182,51 @@ func (a *AWS) SortedASGNames() []string {
 	return out
 }
 
+func lifecycleOf(inst *Instance) string {
+	if inst.Terminating {
+		if inst.ID[len(inst.ID)-1]%2 == 0 {
+			return "Terminating:Wait"
+		}
+		return "Terminating"
+	}
+	return "InService"
+}
+
 func verr(msg string) error { return awserr.New("ValidationError", msg, nil) }
 
 func (a *AWS) inject(kind string) error {
 	if a.J.ShouldFail(kind, "") {
-		return awserr.New("InternalFailure", "injected failure: "+kind, &InjectedErr{kind})
+		code := a.J.LastCode
+		if code == "" {
+			code = "InternalFailure"
+		}
+		return awserr.New(code, "injected failure: "+kind, &InjectedErr{kind})
 	}
 	return nil
+}
+
+// Settle lets every group finish the terminations it still lists.
+func (a *AWS) Settle() {
+	for _, g := range a.ASGs {
+		for _, id := range append([]string{}, g.Instances...) {
+			if inst := a.Instances[id]; inst != nil && inst.Terminating {
+				g.Instances = remove(g.Instances, id)
+				inst.ASG = ""
+				inst.Terminating = false
+			}
+		}
+	}
+}
+
+// Live counts the instances of a group that are not on their way out.
+func (a *AWS) Live(g *ASG) int {
+	n := 0
+	for _, id := range g.Instances {
+		if inst := a.Instances[id]; inst != nil && !inst.Terminating {
+			n++
+		}
+	}
+	return n
 }
 
 // AutoScaling returns the auto scaling service client.
@@ -217,12 +266,15 @@ func (c *asClient) DescribeAutoScalingGroups(in *autoscaling.DescribeAutoScaling
 			DesiredCapacity:      awsapi.Int64(g.Desired),
 			VPCZoneIdentifier:    awsapi.String(g.VPCZones),
 		}
+		if g.Status != "" {
+			grp.Status = awsapi.String(g.Status)
+		}
 		for _, id := range g.Instances {
 			inst := c.a.Instances[id]
 			grp.Instances = append(grp.Instances, &autoscaling.Instance{
 				InstanceId:       awsapi.String(inst.ID),
 				AvailabilityZone: awsapi.String(inst.AZ),
-				LifecycleState:   awsapi.String("InService"),
+				LifecycleState:   awsapi.String(lifecycleOf(inst)),
 				HealthStatus:     awsapi.String("Healthy"),
 			})
 		}
@@ -291,6 +343,9 @@ func (c *asClient) TerminateInstanceInAutoScalingGroup(in *autoscaling.Terminate
 	if err := c.a.inject(ATerminateInASG); err != nil {
 		return fail(err, true)
 	}
+	if inst != nil && inst.Terminating {
+		return fail(verr("Instance "+id+" is not in InService or Standby state (Terminating)"), false)
+	}
 	if in.InstanceId == nil || g == nil || inst.Dead {
 		return fail(verr("Instance Id not found - No managed instance found for instance ID: "+id), false)
 	}
@@ -299,8 +354,12 @@ func (c *asClient) TerminateInstanceInAutoScalingGroup(in *autoscaling.Terminate
 		return fail(verr("Currently, desiredSize equals minSize. Terminating instance without replacement will violate group's min size constraint."), false)
 	}
 	c.a.J.Add(e)
-	g.Instances = remove(g.Instances, id)
-	inst.ASG = ""
+	if c.a.Linger {
+		inst.Terminating = true
+	} else {
+		g.Instances = remove(g.Instances, id)
+		inst.ASG = ""
+	}
 	inst.Dead = true
 	if dec {
 		g.Desired--
@@ -509,6 +568,7 @@ func (c *ec2Client) CreateFleet(in *ec2.CreateFleetInput) (*ec2.CreateFleetOutpu
 		}
 		if int(i) < plan.NeverReady {
 			inst.Never = true
+			inst.GoneState = plan.GoneState
 		}
 		ids = append(ids, inst.ID)
 	}
@@ -552,6 +612,8 @@ func (c *ec2Client) DescribeInstanceStatusPages(in *ec2.DescribeInstanceStatusIn
 			state, code = "terminated", 48
 		case inst.Running():
 			state, code = "running", 16
+		case inst.Never && inst.GoneState != "":
+			state, code = inst.GoneState, map[string]int64{"shutting-down": 32, "terminated": 48, "stopping": 64, "stopped": 80}[inst.GoneState]
 		}
 		if state != "running" && !awsapi.BoolValue(in.IncludeAllInstances) {
 			continue
